@@ -4,6 +4,10 @@ import WacProofs.Lemmas.PrinterErase
 import WacProofs.Lemmas.PrinterNonLoss
 import WacProofs.Lemmas.PrinterParseWF
 import WacProofs.Lemmas.PrinterLexOut
+import WacProofs.Lemmas.PrinterParseDepth
+import WacProofs.Lemmas.PrinterCharsLex
+import WacProofs.Lemmas.PrinterCharsParse
+import WacProofs.Lemmas.PrinterCharsPrint
 /-
   C13 — printing a parsed document and re-parsing it gives the same document; printing is
   idempotent.  Theorems about the models:
@@ -14,16 +18,20 @@ import WacProofs.Lemmas.PrinterLexOut
     equivalence    `Document.erase`            (WacModel/AstErase.lean): equal up to source
                    positions and doc-comment line splitting
     well-formed    `Document.wf`               (WacModel/PrintWF.lean): what every parsed tree satisfies
+    nesting limit  `Document.depthOk`          (WacModel/PrintDepth.lean): the printed tokens stay
+                   within `MAX_NESTING_DEPTH` of the lexer (every parsed tree does, `parse_depth`)
+    screen         `Document.chars screenOk`   (WacModel/PrintChars.lean): the characters of the text
+                   leaves pass `detect_invalid_input` (every parsed tree's do, `parse_chars`)
 
   `reparse text` is `Document::parse` after the code-point screen `detect_invalid_input`
   (`parseDocument text = reparse text` whenever the screen passes, `parseDocument_eq_reparse`).
-  NOT covered by a theorem: that the screen passes on the printed text (the printed text consists
-  of ASCII literals and of characters of the source, which passed the screen; this is observed by
-  the correspondence harness on every case).
+  The theorems for ARBITRARY trees carry the hypotheses `wf`, `depthOk` (and `chars screenOk` where
+  the screen is involved); `round_trip` is for every document the parser accepts, without them.
 -/
 namespace Wac.Props.C13Print
 open Wac Wac.Ast Wac.Lex Wac.Parse Wac.Print Wac.PrintTok
 open Wac.Lemmas.PrinterParse Wac.Lemmas.PrinterErase Wac.Lemmas.PrinterNonLoss Wac.Lemmas.PrinterWF
+open Wac.Lemmas.PrinterDepth Wac.Lemmas.PrinterChars
 
 /-- `Document::parse` after the screen -/
 def reparse (text : Str) : Except ParseError Document := parseTokens (PState.init text)
@@ -53,6 +61,8 @@ def witness : Document :=
       .Type' (.World ⟨[], id "w", [.Include ⟨[], .Ident (id "v"), [⟨id "a", id "b"⟩]⟩]⟩)] }
 
 example : witness.wf = true := by decide
+example : witness.depthOk = true := by decide
+example : witness.chars screenOk = true := by decide
 
 /-! ### 1. the layout: the printed text consists of exactly the tokens of the token printer -/
 
@@ -69,20 +79,24 @@ example : tokenizeE (Print.document witness) = printTokens witness := layout_tok
 /-! ### 2. the printed tokens parse back to the same tree -/
 
 /-- `print_tokens_valid`: the parser, run on the printed tokens with whatever byte offsets
-attached, succeeds and returns the document up to positions and doc-comment line splitting. -/
+attached (`E st`: the items `Lexer::next` will return, without offsets), succeeds and returns the
+document up to positions and doc-comment line splitting. -/
 theorem print_tokens_valid (d : Document) (hwf : d.wf = true) (st : PState)
-    (hst : st.toks.map LTok.erase = printTokens d) :
+    (hst : E st = printTokens d) :
     ∃ d', parseTokens st = .ok d' ∧ d'.erase = d.erase :=
   parseTokens_printTokens docsNF d hwf st hst
 
 /-- print → re-parse: the printed text parses to the same document up to positions and
 doc-comment line splitting -/
-theorem print_reparse (d : Document) (hwf : d.wf = true) :
-    ∃ d', reparse (Print.document d) = .ok d' ∧ d'.erase = d.erase :=
-  print_tokens_valid d hwf (PState.init (Print.document d)) (layout_tokens d hwf)
+theorem print_reparse (d : Document) (hwf : d.wf = true) (hdepth : d.depthOk = true) :
+    ∃ d', reparse (Print.document d) = .ok d' ∧ d'.erase = d.erase := by
+  apply print_tokens_valid d hwf (PState.init (Print.document d))
+  have hl := layout_tokens d hwf
+  have : (PState.init (Print.document d)).toks.map LTok.erase = printTokens d := hl
+  rw [E_eq_map _ (by rw [this]; exact hdepth), this]
 
 example : ∃ d', reparse (Print.document witness) = .ok d' ∧ d'.erase = witness.erase :=
-  print_reparse witness (by decide)
+  print_reparse witness (by decide) (by decide)
 
 /-! ### 3. printing is idempotent -/
 
@@ -90,10 +104,15 @@ example : ∃ d', reparse (Print.document witness) = .ok d' ∧ d'.erase = witne
 theorem print_erase (d : Document) : Print.document d.erase = Print.document d := document_erase d
 
 /-- `print_idempotent`: the re-parsed tree prints to the same text, byte for byte -/
-theorem print_idempotent (d : Document) (hwf : d.wf = true) :
+theorem print_idempotent (d : Document) (hwf : d.wf = true) (hdepth : d.depthOk = true) :
     ∃ d', reparse (Print.document d) = .ok d' ∧ Print.document d' = Print.document d := by
-  obtain ⟨d', hp, he⟩ := print_reparse d hwf
+  obtain ⟨d', hp, he⟩ := print_reparse d hwf hdepth
   exact ⟨d', hp, by rw [← print_erase d', he, print_erase d]⟩
+
+/-- the printed text passes the code-point screen when the leaves of the tree do -/
+theorem print_screen (d : Document) (hd : d.chars screenOk = true) :
+    detectInvalidInput (Print.document d) = none :=
+  Wac.Lemmas.PrinterChars.print_screen d hd
 
 /-- every tree the parser returns is well-formed -/
 theorem parse_wf (src : Str) (d : Document) (h : parseDocument src = .ok d) : d.wf = true := by
@@ -102,15 +121,33 @@ theorem parse_wf (src : Str) (d : Document) (h : parseDocument src = .ok d) : d.
   · cases h
   · exact parseTokens_wf (PState.init src) (init_toksOK src) d h
 
+/-- the printed form of every tree the parser returns stays within the nesting limit -/
+theorem parse_depth (src : Str) (d : Document) (h : parseDocument src = .ok d) : d.depthOk = true := by
+  unfold parseDocument at h
+  split at h
+  · cases h
+  · exact parseTokens_depth (PState.init src) rfl d h
+
+/-- the text leaves of every tree the parser returns consist of characters that pass the screen -/
+theorem parse_chars (src : Str) (d : Document) (h : parseDocument src = .ok d) :
+    d.chars screenOk = true := by
+  unfold parseDocument at h
+  split at h
+  · cases h
+  · rename_i hs
+    exact parseTokens_chars screenOk (PState.init src) (init_toksChars src hs) d h
+
 /-- C13 for the models, full statement: for every document the parser accepts, the printed text
-parses (after the screen) to a tree identical to the original up to source positions and
-doc-comment line splitting, and printing that tree reproduces the text byte for byte. -/
+is accepted by `Document::parse` (screen included) with a tree identical to the original up to
+source positions and doc-comment line splitting, and printing that tree reproduces the text byte
+for byte. -/
 theorem round_trip (src : Str) (d : Document) (h : parseDocument src = .ok d) :
-    ∃ d', reparse (Print.document d) = .ok d' ∧ d'.erase = d.erase ∧
+    ∃ d', parseDocument (Print.document d) = .ok d' ∧ d'.erase = d.erase ∧
       Print.document d' = Print.document d := by
-  have hwf := parse_wf src d h
-  obtain ⟨d', hp, he⟩ := print_reparse d hwf
-  exact ⟨d', hp, he, by rw [← print_erase d', he, print_erase d]⟩
+  obtain ⟨d', hp, he⟩ := print_reparse d (parse_wf src d h) (parse_depth src d h)
+  refine ⟨d', ?_, he, by rw [← print_erase d', he, print_erase d]⟩
+  rw [parseDocument_eq_reparse _ (print_screen d (parse_chars src d h))]
+  exact hp
 
 /-! ### 4. doc comments -/
 
@@ -141,11 +178,11 @@ example : (Print.docs ⟨[], 0, false⟩ [⟨"a\n\n b".toList, ⟨0, 0⟩⟩]).o
 /-! ### 5. nothing is lost (one statement per construct) -/
 
 /-- the target of the package directive survives print → re-parse -/
-theorem print_keeps_targets (d : Document) (hwf : d.wf = true) (d' : Document)
-    (h : reparse (Print.document d) = .ok d') :
+theorem print_keeps_targets (d : Document) (hwf : d.wf = true) (hdepth : d.depthOk = true)
+    (d' : Document) (h : reparse (Print.document d) = .ok d') :
     d'.directive.targets.map PackagePath.erase = d.directive.targets.map PackagePath.erase ∧
     d'.directive.targets.map (·.string) = d.directive.targets.map (·.string) := by
-  obtain ⟨d'', hp, he⟩ := print_reparse d hwf
+  obtain ⟨d'', hp, he⟩ := print_reparse d hwf hdepth
   have hdd : d'' = d' := by rw [hp] at h; exact Except.ok.inj h
   subst hdd
   have hd : d''.directive.erase = d.directive.erase := congrArg Document.directive he
@@ -154,11 +191,11 @@ theorem print_keeps_targets (d : Document) (hwf : d.wf = true) (d' : Document)
 example : witness.directive.targets.isSome = true := by decide
 
 /-- the package name and its version survive print → re-parse -/
-theorem print_keeps_version (d : Document) (hwf : d.wf = true) (d' : Document)
-    (h : reparse (Print.document d) = .ok d') :
+theorem print_keeps_version (d : Document) (hwf : d.wf = true) (hdepth : d.depthOk = true)
+    (d' : Document) (h : reparse (Print.document d) = .ok d') :
     d'.directive.package.version = d.directive.package.version ∧
     d'.directive.package.string = d.directive.package.string := by
-  obtain ⟨d'', hp, he⟩ := print_reparse d hwf
+  obtain ⟨d'', hp, he⟩ := print_reparse d hwf hdepth
   have hdd : d'' = d' := by rw [hp] at h; exact Except.ok.inj h
   subst hdd
   have hd : d''.directive.erase = d.directive.erase := congrArg Document.directive he
@@ -172,9 +209,9 @@ theorem print_keeps_version (d : Document) (hwf : d.wf = true) (d' : Document)
 same text, name, segments and version -/
 theorem print_keeps_version_node (p : PackageName) (hwf : p.wf = true) (q : PackagePath)
     (hq : q.wf = true) (st : PState) (rest : List PTok) :
-    (st.toks.map LTok.erase = packageName p :: rest →
+    (E st = packageName p :: rest →
       ∃ p' st', parsePackageName st = .ok (p', st') ∧ packageNameData p' = packageNameData p) ∧
-    (st.toks.map LTok.erase = packagePath q :: rest →
+    (E st = packagePath q :: rest →
       ∃ q' st', parsePackagePath st = .ok (q', st') ∧ packagePathData q' = packagePathData q) := by
   constructor
   · intro h
@@ -187,7 +224,7 @@ theorem print_keeps_version_node (p : PackageName) (hwf : p.wf = true) (q : Pack
 /-- a `%`-escaped identifier is printed with its `%` and parsed back with the flag and the same
 cooked name -/
 theorem print_keeps_percent_escape (i : Ident) (hwf : i.wf = true) (st : PState) (rest : List PTok)
-    (h : st.toks.map LTok.erase = ident i :: rest) :
+    (h : E st = ident i :: rest) :
     (i.escaped = true → (ident i).text = '%' :: i.string) ∧
     ∃ i' st', parseIdent st = .ok (i', st') ∧ i'.escaped = i.escaped ∧ i'.string = i.string := by
   refine ⟨fun he => by simp [ident, identSrc, Ident.raw, he], ?_⟩
@@ -202,9 +239,9 @@ example : (⟨"type".toList, true, ⟨0, 0⟩⟩ : Ident).wf = true := by decide
 same text -/
 theorem print_keeps_string_names (n : ExternName) (hn : n.wf = true) (a : InstantiationArgumentName)
     (ha : a.wf = true) (st : PState) (rest : List PTok) :
-    (st.toks.map LTok.erase = externName n :: rest →
+    (E st = externName n :: rest →
       ∃ n' st', parseExternName st = .ok (n', st') ∧ externNameData n' = externNameData n) ∧
-    (st.toks.map LTok.erase = argName a :: rest →
+    (E st = argName a :: rest →
       ∃ a' st', parseInstantiationArgumentName st = .ok (a', st') ∧ argNameData a' = argNameData a) := by
   constructor
   · intro h
@@ -219,7 +256,7 @@ theorem print_keeps_string_names (n : ExternName) (hn : n.wf = true) (a : Instan
 theorem print_keeps_fill_position (args : List InstantiationArgument) (hwf : wfArgs args = true)
     (fuel : Nat) (hf : 3 * (exprArgs args).length + 3 ≤ fuel) (n : Nat) (hn : args.length + 1 ≤ n)
     (st : PState) (rest : List PTok)
-    (h : st.toks.map LTok.erase = exprArgs args ++ rest) (hrest : headIs .CloseBrace rest) :
+    (h : E st = exprArgs args ++ rest) (hrest : headIs .CloseBrace rest) :
     ∃ args' st', parseDelimited .CloseBrace true instantiationArgumentPeeks
         (parseInstantiationArgument fuel) n st = .ok (args', st') ∧
       args'.map argKind = args.map argKind := by
@@ -229,7 +266,7 @@ theorem print_keeps_fill_position (args : List InstantiationArgument) (hwf : wfA
 /-- a static method stays static, a constructor stays a constructor -/
 theorem print_keeps_static (m : ResourceMethod) (hwf : m.wf = true) (fuel : Nat)
     (hf : 3 * (resourceMethod m).length ≤ fuel) (st : PState) (rest : List PTok)
-    (h : st.toks.map LTok.erase = resourceMethod m ++ rest) :
+    (h : E st = resourceMethod m ++ rest) :
     ∃ m' st', parseResourceMethod fuel st = .ok (m', st') ∧
       resourceMethodKind m' = resourceMethodKind m := by
   obtain ⟨m', st', hp, he, -⟩ := resourceMethod_ok docsNF m hwf fuel hf st rest h trivial
@@ -238,7 +275,7 @@ theorem print_keeps_static (m : ResourceMethod) (hwf : m.wf = true) (fuel : Nat)
 /-- `use p.{a as b, c}`: the renames survive -/
 theorem print_keeps_use_rename (u : Use) (hwf : u.wf = true) (fuel : Nat)
     (hf : 3 * (useType u).length ≤ fuel) (st : PState) (rest : List PTok)
-    (h : st.toks.map LTok.erase = useType u ++ rest) :
+    (h : E st = useType u ++ rest) :
     ∃ u' st', parseUse fuel st = .ok (u', st') ∧ useRenames u' = useRenames u := by
   obtain ⟨u', st', hp, he, -⟩ := use_ok docsNF u hwf fuel hf st rest h trivial
   exact ⟨u', st', hp, feature_eq _ useRenames useRenames_erase he⟩
@@ -246,7 +283,7 @@ theorem print_keeps_use_rename (u : Use) (hwf : u.wf = true) (fuel : Nat)
 /-- `include w with { a as b }`: the with-list survives -/
 theorem print_keeps_include_with (i : WorldInclude) (hwf : i.wf = true) (fuel : Nat)
     (hf : 3 * (worldInclude i).length ≤ fuel) (st : PState) (rest : List PTok)
-    (h : st.toks.map LTok.erase = worldInclude i ++ rest) :
+    (h : E st = worldInclude i ++ rest) :
     ∃ i' st', parseWorldInclude fuel st = .ok (i', st') ∧ includeWith i' = includeWith i := by
   obtain ⟨i', st', hp, he, -⟩ := worldInclude_ok docsNF i hwf fuel hf st rest h trivial
   exact ⟨i', st', hp, feature_eq _ includeWith includeWith_erase he⟩
